@@ -10,23 +10,28 @@ using namespace std; using namespace geo;
 static mcx::Ctx ctx;
 static const int S = 10;
 struct Rc { int x0, y0, x1, y1; bool alive; bool touched; };   // touched: added or moved after the connectors were first routed
-struct Ep { int x0, y0, x1, y1; };
-struct Op { int kind, a, dx, dy; };   // 0 move shape a by (dx,dy); 1 delete shape a; 2 add shape (list index a); 3 move endpoint: conn a, end dx (0/1), to point index dy; 4 process; 5 resize shape a: dx/dy added to its right/bottom side (moveShape with a new polygon)
+struct Ep { int x0, y0, x1, y1; int a0 = -1; };   // a0 >= 0: the source end is attached to the centre pin of shape a0 (x0,y0 then unused)
+struct Op { int kind, a, dx, dy; };   // 0 move shape a by (dx,dy); 1 delete shape a; 2 add shape (list index a); 3 move endpoint: conn a, end dx (0/1), to point index dy; 4 process; 5 resize shape a: dx/dy added to its right/bottom side (moveShape with a new polygon); 6 attach the source end of conn a to the centre pin of shape dx
 static const vector<Rc> RL = {{2, 1, 3, 3}, {2, 2, 4, 3}, {1, 2, 2, 5}, {3, 0, 4, 2}, {2, 3, 3, 4}, {4, 2, 5, 5}};
 static const vector<Ep> EPS = {{0, 2, 6, 2}, {0, 0, 6, 6}, {1, 0, 5, 6}, {0, 3, 6, 1}, {3, 6, 3, 0}};
 static const vector<array<int, 2>> PTS = {{0, 5}, {6, 4}, {3, 5}};
 static string op_str(const Op &o) {
     switch (o.kind) { case 0: return mcx::fmt("move(shape%d,%+d,%+d)", o.a, o.dx, o.dy); case 1: return mcx::fmt("delete(shape%d)", o.a); case 2: return mcx::fmt("add(rect#%d)", o.a);
                       case 5: return mcx::fmt("resize(shape%d,%+d,%+d)", o.a, o.dx, o.dy);
+                      case 6: return mcx::fmt("setEndpoint(conn%d,src,pin of shape%d)", o.a, o.dx);
                       case 3: return mcx::fmt("setEndpoint(conn%d,%s,(%d,%d))", o.a, o.dx ? "dst" : "src", PTS[o.dy][0], PTS[o.dy][1]); default: return "processTransaction"; }
 }
+static int g_buf = 0;   // shapeBufferDistance in half cells (phases 'buffer'): grid points one cell... half a cell from a shape lie exactly on the border of its routing polygon
 static Avoid::Router *mk(bool ortho, bool transactions) {
     Avoid::Router *r = new Avoid::Router(ortho ? Avoid::OrthogonalRouting : Avoid::PolyLineRouting);
     r->setRoutingParameter(Avoid::segmentPenalty, ortho ? 20 : 0);
+    if (g_buf) r->setRoutingParameter(Avoid::shapeBufferDistance, g_buf * S / 2.0);
     r->setTransactionUse(transactions);
     return r;
 }
-static Avoid::ShapeRef *mk_shape(Avoid::Router *r, const Rc &c) { Avoid::Rectangle pg(Avoid::Point(c.x0 * S, c.y0 * S), Avoid::Point(c.x1 * S, c.y1 * S)); return new Avoid::ShapeRef(r, pg); }
+static bool g_pins = false;   // phases with attached connectors: every shape carries a centre pin of class 1
+static Avoid::ShapeRef *mk_shape(Avoid::Router *r, const Rc &c) { Avoid::Rectangle pg(Avoid::Point(c.x0 * S, c.y0 * S), Avoid::Point(c.x1 * S, c.y1 * S)); Avoid::ShapeRef *sh = new Avoid::ShapeRef(r, pg); if (g_pins) new Avoid::ShapeConnectionPin(sh, 1, Avoid::ATTACH_POS_CENTRE, Avoid::ATTACH_POS_CENTRE, true, 0.0, Avoid::ConnDirNone); return sh; }
+static Avoid::ConnEnd src_end(const Ep &c, const vector<Avoid::ShapeRef *> &sh) { return c.a0 >= 0 ? Avoid::ConnEnd(sh[c.a0], 1) : Avoid::ConnEnd(Avoid::Point(c.x0 * S, c.y0 * S)); }
 static double cost(const Avoid::PolyLine &r, bool ortho) {
     double l = 0; for (size_t i = 1; i < r.size(); i++) l += ortho ? fabs(r.ps[i].x - r.ps[i - 1].x) + fabs(r.ps[i].y - r.ps[i - 1].y) : hypot(r.ps[i].x - r.ps[i - 1].x, r.ps[i].y - r.ps[i - 1].y);
     if (ortho) { int b = 0; for (size_t i = 2; i < r.size(); i++) { bool col = (r.ps[i - 2].x == r.ps[i - 1].x && r.ps[i - 1].x == r.ps[i].x) || (r.ps[i - 2].y == r.ps[i - 1].y && r.ps[i - 1].y == r.ps[i].y); if (!col) b++; } l += 20 * b; }
@@ -36,17 +41,21 @@ static string route_str(const Avoid::PolyLine &r) { string s; for (size_t i = 0;
 static bool overlapR(const Rc &P, const Rc &Q) { return !(P.x1 <= Q.x0 || Q.x1 <= P.x0 || P.y1 <= Q.y0 || Q.y1 <= P.y0); }
 
 struct World { vector<Rc> shapes; vector<Ep> conns; };
-static string world_str(const World &w) { string s = "shapes:"; for (auto &r : w.shapes) s += r.alive ? mcx::fmt(" [%d,%d..%d,%d]", r.x0, r.y0, r.x1, r.y1) : " [deleted]"; s += " conns:"; for (auto &c : w.conns) s += mcx::fmt(" (%d,%d)->(%d,%d)", c.x0, c.y0, c.x1, c.y1); return s; }
+static string world_str(const World &w) { string s = "shapes:"; for (auto &r : w.shapes) s += r.alive ? mcx::fmt(" [%d,%d..%d,%d]", r.x0, r.y0, r.x1, r.y1) : " [deleted]"; s += " conns:"; for (auto &c : w.conns) s += c.a0 >= 0 ? mcx::fmt(" pin(shape%d)->(%d,%d)", c.a0, c.x1, c.y1) : mcx::fmt(" (%d,%d)->(%d,%d)", c.x0, c.y0, c.x1, c.y1); return s; }
 
 // judge the live router against the model scene and a fresh router
 static void judge(const World &w, Avoid::Router *live, const vector<Avoid::ConnRef *> &lc, bool ortho, const string &desc) {
     ctx.count("states");
     // legality of the scene for clauses (i),(ii)
     for (size_t i = 0; i < w.shapes.size(); i++) for (size_t j = i + 1; j < w.shapes.size(); j++) if (w.shapes[i].alive && w.shapes[j].alive && overlapR(w.shapes[i], w.shapes[j])) { ctx.count("skipped_overlapping_scene"); return; }
+    // with a buffer distance the routing polygons are the shapes grown by it: scenes whose routing polygons overlap or touch (shapes at most twice the buffer apart) are not judged here
+    // (overlapping: KF-C03-1; touching: coincident corners of two routing polygons, the through_vertex degeneracy of KF-C03-2/KF-C06-1), and a connector with an end strictly inside a routing polygon is not judged (an end exactly ON its border is)
+    if (g_buf) for (size_t i = 0; i < w.shapes.size(); i++) for (size_t j = i + 1; j < w.shapes.size(); j++) if (w.shapes[i].alive && w.shapes[j].alive) { const Rc &P = w.shapes[i], &Q = w.shapes[j];
+        if (!(2 * P.x1 + g_buf < 2 * Q.x0 - g_buf || 2 * Q.x1 + g_buf < 2 * P.x0 - g_buf || 2 * P.y1 + g_buf < 2 * Q.y0 - g_buf || 2 * Q.y1 + g_buf < 2 * P.y0 - g_buf)) { ctx.count("skipped_overlapping_routing_polygons"); return; } }
     vector<char> epIn(w.conns.size(), 0);   // connectors with an endpoint in a closed shape of the final scene are not judged
-    for (size_t k = 0; k < w.conns.size(); k++) for (auto &s : w.shapes) if (s.alive) for (int q = 0; q < 2; q++) { const Ep &c = w.conns[k]; int x = q ? c.x1 : c.x0, y = q ? c.y1 : c.y0; if (x >= s.x0 && x <= s.x1 && y >= s.y0 && y <= s.y1) epIn[k] = 1; }
-    Avoid::Router *f = mk(ortho, true); for (auto &s : w.shapes) if (s.alive) mk_shape(f, s);
-    vector<Avoid::ConnRef *> fc; for (auto &c : w.conns) fc.push_back(new Avoid::ConnRef(f, Avoid::ConnEnd(Avoid::Point(c.x0 * S, c.y0 * S)), Avoid::ConnEnd(Avoid::Point(c.x1 * S, c.y1 * S))));
+    for (size_t k = 0; k < w.conns.size(); k++) for (auto &s : w.shapes) if (s.alive) for (int q = 0; q < 2; q++) { const Ep &c = w.conns[k]; if (q == 0 && c.a0 >= 0) continue; int x = q ? c.x1 : c.x0, y = q ? c.y1 : c.y0; if (x >= s.x0 && x <= s.x1 && y >= s.y0 && y <= s.y1) epIn[k] = 1; if (g_buf && 2 * x > 2 * s.x0 - g_buf && 2 * x < 2 * s.x1 + g_buf && 2 * y > 2 * s.y0 - g_buf && 2 * y < 2 * s.y1 + g_buf) epIn[k] = 1; }
+    Avoid::Router *f = mk(ortho, true); vector<Avoid::ShapeRef *> fsh; for (auto &s : w.shapes) fsh.push_back(s.alive ? mk_shape(f, s) : nullptr);
+    vector<Avoid::ConnRef *> fc; for (auto &c : w.conns) fc.push_back(new Avoid::ConnRef(f, src_end(c, fsh), Avoid::ConnEnd(Avoid::Point(c.x1 * S, c.y1 * S))));
     f->processTransaction();
     for (size_t k = 0; k < w.conns.size(); k++) {
         if (epIn[k]) { ctx.count("skipped_endpoint_in_shape"); continue; }
@@ -54,9 +63,21 @@ static void judge(const World &w, Avoid::Router *live, const vector<Avoid::ConnR
         const Avoid::PolyLine &ri = ortho ? lc[k]->route() : lc[k]->displayRoute(), &rf = ortho ? fc[k]->route() : fc[k]->displayRoute(), &di = lc[k]->displayRoute();
         string obs = "incremental " + route_str(di) + " fresh " + route_str(fc[k]->displayRoute());
         // (i) validity in the final scene
-        bool invalid = false, throughVertex = false, chordNewer = false;
-        if (di.size() < 2 || di.ps[0].x != w.conns[k].x0 * S || di.ps[0].y != w.conns[k].y0 * S || di.ps[di.size() - 1].x != w.conns[k].x1 * S || di.ps[di.size() - 1].y != w.conns[k].y1 * S) ctx.violation("endpoints_wrong", {}, desc, obs);
+        const Ep &ck = w.conns[k]; bool invalid = false, throughVertex = false, chordNewer = false, epOnRoutingBorder = false;
+        // class routing_polygon_chord_or_vertex (buffer phases): a segment of the incremental OR of the fresh route runs through the interior of some shape's routing
+        // polygon (the shape grown by the buffer) and (i) both its ends lie on that polygon's border (a chord between two border points: no edge is crossed properly),
+        // or (ii) it passes exactly through one of that polygon's vertices.  Both are the degenerate contacts of KF-C03-2 / KF-C06-1 seen on the routing polygon.
+        if (g_buf) { double bb = g_buf * S / 2.0; const Avoid::PolyLine *both[2] = {&di, &fc[k]->displayRoute()}; for (const Avoid::PolyLine *rt : both) for (size_t q = 1; q < rt->size(); q++) for (auto &s : w.shapes) if (s.alive) {
+            double X0 = s.x0 * S - bb, X1 = s.x1 * S + bb, Y0 = s.y0 * S - bb, Y1 = s.y1 * S + bb; Poly R = rect(X0, Y0, X1, Y1);
+            double ax = rt->ps[q - 1].x, ay = rt->ps[q - 1].y, bx = rt->ps[q].x, by = rt->ps[q].y, L = (bx - ax) * (bx - ax) + (by - ay) * (by - ay);
+            if (!hitsInteriorD(R, ax, ay, bx, by, 1e-6)) continue;
+            auto onB = [&](double x, double y) { return x >= X0 && x <= X1 && y >= Y0 && y <= Y1 && (x == X0 || x == X1 || y == Y0 || y == Y1); };
+            if (onB(ax, ay) && onB(bx, by)) epOnRoutingBorder = true;
+            for (auto &v : R.v) { double cr = (bx - ax) * (v.y - ay) - (v.x - ax) * (by - ay), dt = (v.x - ax) * (bx - ax) + (v.y - ay) * (by - ay); if (cr == 0 && dt >= 0 && dt <= L) epOnRoutingBorder = true; } } }
+        double ex0 = ck.a0 >= 0 ? (w.shapes[ck.a0].x0 + w.shapes[ck.a0].x1) * S / 2.0 : ck.x0 * S, ey0 = ck.a0 >= 0 ? (w.shapes[ck.a0].y0 + w.shapes[ck.a0].y1) * S / 2.0 : ck.y0 * S;
+        if (di.size() < 2 || di.ps[0].x != ex0 || di.ps[0].y != ey0 || di.ps[di.size() - 1].x != w.conns[k].x1 * S || di.ps[di.size() - 1].y != w.conns[k].y1 * S) ctx.violation("endpoints_wrong", {}, desc, obs);
         for (size_t q = 1; q < di.size(); q++) for (auto &s : w.shapes) if (s.alive) {
+            if (ck.a0 >= 0 && &s == &w.shapes[ck.a0]) continue;   // the shape the connector is attached to contains its end
             Poly p = rect(s.x0 * S, s.y0 * S, s.x1 * S, s.y1 * S);
             if (hitsInteriorD(p, di.ps[q - 1].x, di.ps[q - 1].y, di.ps[q].x, di.ps[q].y, 1e-6)) {
                 invalid = true;
@@ -80,18 +101,18 @@ static void judge(const World &w, Avoid::Router *live, const vector<Avoid::ConnR
             }
         }
         // is the fresh route itself valid?  (if not, a free path may not exist and nothing is demanded)
-        bool freshInvalid = false; for (size_t q = 1; q < fc[k]->displayRoute().size(); q++) for (auto &s : w.shapes) if (s.alive) { Poly p = rect(s.x0 * S, s.y0 * S, s.x1 * S, s.y1 * S); const Avoid::PolyLine &fr = fc[k]->displayRoute(); if (hitsInteriorD(p, fr.ps[q - 1].x, fr.ps[q - 1].y, fr.ps[q].x, fr.ps[q].y, 1e-6)) freshInvalid = true; }
+        bool freshInvalid = false; for (size_t q = 1; q < fc[k]->displayRoute().size(); q++) for (auto &s : w.shapes) if (s.alive && !(ck.a0 >= 0 && &s == &w.shapes[ck.a0])) { Poly p = rect(s.x0 * S, s.y0 * S, s.x1 * S, s.y1 * S); const Avoid::PolyLine &fr = fc[k]->displayRoute(); if (hitsInteriorD(p, fr.ps[q - 1].x, fr.ps[q - 1].y, fr.ps[q].x, fr.ps[q].y, 1e-6)) freshInvalid = true; }
         // Whether a free path exists is decided by the exact visibility graph (polyline); the fresh router's own
         // validity is only a proxy and is used for orthogonal mode.  (A fresh router can be wrong too: shapes are
         // added one after the other inside its single transaction.)
         bool pathExists = !freshInvalid;
-        if (!ortho) { vector<Poly> sc; for (auto &sh : w.shapes) if (sh.alive) sc.push_back(rect(sh.x0, sh.y0, sh.x1, sh.y1)); VisGraph vg(sc, P{w.conns[k].x0, w.conns[k].y0}, P{w.conns[k].x1, w.conns[k].y1}); pathExists = vg.reachable(); if (freshInvalid && pathExists) ctx.count("fresh_route_invalid_although_path_exists"); }
+        if (!ortho && ck.a0 < 0) { vector<Poly> sc; for (auto &sh : w.shapes) if (sh.alive) sc.push_back(rect(sh.x0, sh.y0, sh.x1, sh.y1)); VisGraph vg(sc, P{w.conns[k].x0, w.conns[k].y0}, P{w.conns[k].x1, w.conns[k].y1}); pathExists = vg.reachable(); if (freshInvalid && pathExists) ctx.count("fresh_route_invalid_although_path_exists"); }
         if (!pathExists) { ctx.count("no_free_path"); continue; }
         if (freshInvalid && !invalid) { ctx.count("fresh_invalid_incremental_valid"); continue; }
-        if (invalid) { vector<string> kc; if (throughVertex && !ortho) kc.push_back("through_vertex"); if (chordNewer && !ortho) kc.push_back("chord_from_newer_vertex"); ctx.violation("route_invalid_after_history", kc, desc, obs); continue; }
+        if (invalid) { vector<string> kc; if (throughVertex && !ortho) kc.push_back("through_vertex"); if (chordNewer && !ortho) kc.push_back("chord_from_newer_vertex"); if (epOnRoutingBorder) kc.push_back("routing_polygon_chord_or_vertex"); ctx.violation("route_invalid_after_history", kc, desc, obs); continue; }
         // (ii) cost no more than from scratch
         double ci = cost(ri, ortho), cf = cost(rf, ortho);
-        if (ci > cf + 1e-6) ctx.violation("costlier_than_fresh", {}, desc, mcx::fmt("incremental cost %.9g fresh %.9g; ", ci, cf) + obs);
+        if (ci > cf + 1e-6) ctx.violation("costlier_than_fresh", epOnRoutingBorder ? vector<string>{"routing_polygon_chord_or_vertex"} : vector<string>{}, desc, mcx::fmt("incremental cost %.9g fresh %.9g; ", ci, cf) + obs);
         if (fabs(ci - cf) > 1e-6) ctx.count("differs_from_fresh");
     }
     delete f;
@@ -104,7 +125,7 @@ static void judge(const World &w, Avoid::Router *live, const vector<Avoid::ConnR
 static void run_history(const World &w0, const vector<Op> &ops, bool ortho, bool transactions, int batch) {
     World w = w0; Avoid::Router *r = mk(ortho, transactions);
     vector<Avoid::ShapeRef *> sh; for (auto &s : w.shapes) sh.push_back(s.alive ? mk_shape(r, s) : nullptr);
-    vector<Avoid::ConnRef *> lc; for (auto &c : w.conns) lc.push_back(new Avoid::ConnRef(r, Avoid::ConnEnd(Avoid::Point(c.x0 * S, c.y0 * S)), Avoid::ConnEnd(Avoid::Point(c.x1 * S, c.y1 * S))));
+    vector<Avoid::ConnRef *> lc; for (auto &c : w.conns) lc.push_back(new Avoid::ConnRef(r, src_end(c, sh), Avoid::ConnEnd(Avoid::Point(c.x1 * S, c.y1 * S))));
     r->processTransaction();
     string desc = mcx::fmt("%s transactions=%d batch=%d start ", ortho ? "orthogonal" : "polyline", transactions, batch) + world_str(w0) + " ops:";
     bool interesting = false; int pending = 0;
@@ -114,7 +135,8 @@ static void run_history(const World &w0, const vector<Op> &ops, bool ortho, bool
         else if (o.kind == 1) { r->deleteShape(sh[o.a]); w.shapes[o.a].alive = false; sh[o.a] = nullptr; }
         else if (o.kind == 5) { Rc &c = w.shapes[o.a]; c.x1 += o.dx; c.y1 += o.dy; c.touched = true; Avoid::Rectangle pg(Avoid::Point(c.x0 * S, c.y0 * S), Avoid::Point(c.x1 * S, c.y1 * S)); r->moveShape(sh[o.a], pg); }
         else if (o.kind == 2) { Rc c = RL[o.a]; c.alive = true; c.touched = true; w.shapes.push_back(c); sh.push_back(mk_shape(r, c)); }
-        else if (o.kind == 3) { Avoid::ConnEnd e(Avoid::Point(PTS[o.dy][0] * S, PTS[o.dy][1] * S)); if (o.dx) { lc[o.a]->setDestEndpoint(e); w.conns[o.a].x1 = PTS[o.dy][0]; w.conns[o.a].y1 = PTS[o.dy][1]; } else { lc[o.a]->setSourceEndpoint(e); w.conns[o.a].x0 = PTS[o.dy][0]; w.conns[o.a].y0 = PTS[o.dy][1]; } }
+        else if (o.kind == 3) { Avoid::ConnEnd e(Avoid::Point(PTS[o.dy][0] * S, PTS[o.dy][1] * S)); if (o.dx) { lc[o.a]->setDestEndpoint(e); w.conns[o.a].x1 = PTS[o.dy][0]; w.conns[o.a].y1 = PTS[o.dy][1]; } else { lc[o.a]->setSourceEndpoint(e); w.conns[o.a].x0 = PTS[o.dy][0]; w.conns[o.a].y0 = PTS[o.dy][1]; w.conns[o.a].a0 = -1; } }
+        else if (o.kind == 6) { lc[o.a]->setSourceEndpoint(Avoid::ConnEnd(sh[o.dx], 1)); w.conns[o.a].a0 = o.dx; }
         pending++;
         if (pending == batch || k + 1 == ops.size()) { if (transactions) r->processTransaction(); pending = 0; judge(w, r, lc, ortho, desc); }
     }
@@ -128,7 +150,9 @@ static vector<Op> legal_ops(const World &w, const vector<Op> &pendingInTx) {
     for (size_t s = 0; s < w.shapes.size(); s++) if (w.shapes[s].alive) {
         bool addedInTx = false, movedInTx = false; for (auto &p : pendingInTx) { if (p.kind == 2 && w.shapes.size() - 1 == s) addedInTx = true; if (p.kind == 0 && p.a == (int)s) movedInTx = true; }
         for (int dx = -1; dx <= 1; dx++) for (int dy = -1; dy <= 1; dy++) if ((dx == 0) != (dy == 0)) v.push_back({0, (int)s, dx, dy});
-        if (!addedInTx) v.push_back({1, (int)s, 0, 0});
+        bool attached = false; for (auto &c : w.conns) if (c.a0 == (int)s) attached = true;
+        if (!addedInTx && !attached) v.push_back({1, (int)s, 0, 0});   // (a shape with a connector attached to it is not deleted: what becomes of the connector end is not specified)
+        if (g_pins) for (size_t c = 0; c < w.conns.size(); c++) if (w.conns[c].a0 != (int)s) v.push_back({6, (int)c, (int)s, 0});
         (void)movedInTx;
         v.push_back({5, (int)s, 1, 0}); v.push_back({5, (int)s, 0, 1});
         if (w.shapes[s].x1 - w.shapes[s].x0 > 1) v.push_back({5, (int)s, -1, 0}); if (w.shapes[s].y1 - w.shapes[s].y0 > 1) v.push_back({5, (int)s, 0, -1});
@@ -140,7 +164,8 @@ static vector<Op> legal_ops(const World &w, const vector<Op> &pendingInTx) {
 static World apply_model(World w, const Op &o) {
     if (o.kind == 5) { Rc &c = w.shapes[o.a]; c.x1 += o.dx; c.y1 += o.dy; }
     else if (o.kind == 0) { Rc &c = w.shapes[o.a]; c.x0 += o.dx; c.x1 += o.dx; c.y0 += o.dy; c.y1 += o.dy; } else if (o.kind == 1) w.shapes[o.a].alive = false; else if (o.kind == 2) { Rc c = RL[o.a]; c.alive = true; w.shapes.push_back(c); }
-    else if (o.kind == 3) { if (o.dx) { w.conns[o.a].x1 = PTS[o.dy][0]; w.conns[o.a].y1 = PTS[o.dy][1]; } else { w.conns[o.a].x0 = PTS[o.dy][0]; w.conns[o.a].y0 = PTS[o.dy][1]; } }
+    else if (o.kind == 3) { if (o.dx) { w.conns[o.a].x1 = PTS[o.dy][0]; w.conns[o.a].y1 = PTS[o.dy][1]; } else { w.conns[o.a].x0 = PTS[o.dy][0]; w.conns[o.a].y0 = PTS[o.dy][1]; w.conns[o.a].a0 = -1; } }
+    else if (o.kind == 6) w.conns[o.a].a0 = o.dx;
     return w;
 }
 static void dfs(const World &w0, const World &w, vector<Op> &ops, int depth, bool ortho, bool transactions, int batch) {
@@ -150,14 +175,15 @@ static void dfs(const World &w0, const World &w, vector<Op> &ops, int depth, boo
     vector<Op> pend; if (batch > 1) for (size_t k = (ops.size() / batch) * batch; k < ops.size(); k++) pend.push_back(ops[k]);
     for (auto &o : legal_ops(w, pend)) { if (ctx.stopped()) return; ops.push_back(o); dfs(w0, apply_model(w, o), ops, depth, ortho, transactions, batch); ops.pop_back(); }
 }
-static void phase(int nshapes, int nconns, int depth, bool ortho, bool transactions, int batch, int epStep) {
-    ctx.phase(mcx::fmt("%s %d shapes %d connector(s) depth %d transactions=%d ops-per-transaction=%d", ortho ? "orthogonal" : "polyline", nshapes, nconns, depth, transactions, batch));
+static void phase(int nshapes, int nconns, int depth, bool ortho, bool transactions, int batch, int epStep, bool attached = false) {
+    g_pins = attached;
+    ctx.phase(mcx::fmt("%s %d shapes %d connector(s) depth %d transactions=%d ops-per-transaction=%d%s%s", ortho ? "orthogonal" : "polyline", nshapes, nconns, depth, transactions, batch, g_buf ? mcx::fmt(" shapeBufferDistance=%g cells", g_buf / 2.0).c_str() : "", attached ? "; every shape has a centre pin, the first connector starts attached to shape 0, re-attaching to a pin is an operation" : ""));
     vector<int> idx(nshapes); for (int i = 0; i < nshapes; i++) idx[i] = i;
     do {
         World w0; bool ok = true; for (int i : idx) { Rc c = RL[i]; c.alive = true; c.touched = false; w0.shapes.push_back(c); }
         for (size_t i = 0; i < w0.shapes.size(); i++) for (size_t j = i + 1; j < w0.shapes.size(); j++) if (overlapR(w0.shapes[i], w0.shapes[j])) ok = false;
         if (!ok) continue;
-        for (size_t e = 0; e < EPS.size(); e += epStep) { World w = w0; w.conns.push_back(EPS[e]); if (nconns == 2) w.conns.push_back(EPS[(e + 2) % EPS.size()]); vector<Op> ops; dfs(w, w, ops, depth, ortho, transactions, batch); if (ctx.stopped()) return; }
+        for (size_t e = 0; e < EPS.size(); e += epStep) { World w = w0; w.conns.push_back(EPS[e]); if (attached) w.conns[0].a0 = 0; if (nconns == 2) w.conns.push_back(EPS[(e + 2) % EPS.size()]); vector<Op> ops; dfs(w, w, ops, depth, ortho, transactions, batch); if (ctx.stopped()) return; }
     } while (mcx::subset_next(idx, RL.size()));
 }
 // systematic depth-1 phase: EVERY pair of interior-disjoint grid rectangles, one connector, then one edit chosen from
@@ -252,8 +278,13 @@ int main(int argc, char **argv) {
     ctx.init(argc, argv);
     bool T = ctx.thorough();
     for (int ortho = 0; ortho < 2; ortho++) { phase(2, 1, 1, ortho, true, 1, 1); phase(2, 1, 2, ortho, true, 1, 1); phase(2, 1, 2, ortho, false, 1, 2); phase(2, 1, 2, ortho, true, 2, 2); phase(3, 2, 1, ortho, true, 1, 2); }
+    for (int ortho = 0; ortho < 2; ortho++) { phase(2, 1, 1, ortho, true, 1, 1, true); phase(2, 1, 2, ortho, true, 2, 1, true); phase(2, 1, 2, ortho, true, 1, 2, true); }
+    g_pins = false;
+    for (int b : {2, 1}) { g_buf = b; phase(2, 1, 1, false, true, 1, 1); phase(2, 1, 2, false, true, 1, 1); phase(2, 1, 3, false, true, 1, 2); } g_buf = 0;
     grid_phase(3, false, 0); grid_phase(3, false, 1); grid_phase(3, false, 100); grid_phase(3, true, 0); grid_phase(3, false, 200); bar_block_phase(5, 3); inside_phase(7, true);
     if (T) { inside_phase(7, false); inside_phase(8, true); bar_block_phase(5, 1); bar_block_phase(6, 2); grid_phase(3, false, 201); grid_phase(4, false, 200); grid_phase(3, false, 101); grid_phase(3, true, 100); for (int e = 0; e < 6; e++) { grid_phase(4, false, e); grid_phase(3, true, e); } grid_phase(4, true, 0); grid_phase(4, true, 2); }
+    if (T) for (int ortho = 0; ortho < 2; ortho++) { phase(2, 1, 2, ortho, false, 1, 1, true); phase(2, 1, 3, ortho, true, 3, 2, true); phase(3, 2, 2, ortho, true, 2, 2, true); }
+    g_pins = false;
     if (T) for (int ortho = 0; ortho < 2; ortho++) { phase(2, 1, 3, ortho, true, 1, 1); phase(2, 1, 3, ortho, false, 1, 2); phase(2, 1, 4, ortho, true, 2, 5); phase(3, 2, 2, ortho, true, 1, 2); phase(3, 1, 3, ortho, true, 3, 5); }
     return ctx.finish();
 }
